@@ -140,8 +140,9 @@ namespace foonathan
                 auto fence  = detail::debug_fence_size;
                 auto offset = detail::align_offset(stack_.top() + fence, alignment);
 
-                if (!stack_.top()
-                    || fence + offset + size + fence > std::size_t(block_end() - stack_.top()))
+                // size first: the sums must not overflow for huge sizes
+                if (!stack_.top() || size > std::size_t(block_end() - stack_.top())
+                    || fence + offset + fence > std::size_t(block_end() - stack_.top()) - size)
                 {
                     // need to grow
                     auto block = arena_.allocate_block();
@@ -150,6 +151,7 @@ namespace foonathan
                     // new alignment required for over-aligned types
                     offset = detail::align_offset(stack_.top() + fence, alignment);
 
+                    detail::check_allocation_size<bad_allocation_size>(size, block.size, info());
                     auto needed = fence + offset + size + fence;
                     detail::check_allocation_size<bad_allocation_size>(needed, block.size, info());
                 }
